@@ -85,7 +85,11 @@ class ParseAPI(object):
             except ValueError:
                 return None
         else:
-            master_secret = pair[1].encode("utf8")  # type: ignore[assignment]
+            try:
+                master_secret = pair[1].encode("utf8")  # type: ignore[assignment]
+            except UnicodeEncodeError:
+                # text with lone surrogates has no UTF-8 form
+                return None
         return self._network.keys.bip32_seed(master_secret)
 
     def hd_seed(self, s: str) -> Any:
@@ -102,7 +106,11 @@ class ParseAPI(object):
             except ValueError:
                 return None
         else:
-            master_secret = pair[1].encode("utf8")  # type: ignore[assignment]
+            try:
+                master_secret = pair[1].encode("utf8")  # type: ignore[assignment]
+            except UnicodeEncodeError:
+                # text with lone surrogates has no UTF-8 form
+                return None
         return self._network.keys.bip32_seed(master_secret)
 
     def bip32_prv(self, s: str) -> Any:
